@@ -3,10 +3,14 @@ CONSTANTS
   LegacyBreak = FALSE
   SwapIn = ""
   NoShadow = FALSE
+  ShallowSub = FALSE
+  IgnoreNs = FALSE
+  ModSharedPath = FALSE
+  MaxMod = 2
   NodeU <- NodeU7
   MaxAssoc = 6
   CreateNs = {1, 2}
-  ClsU = {"AB", "ABS", "AT", "AL"}
+  ClsU = {"AB", "ABS", "ABSS", "AT", "AL"}
   AcU <- AcSmall
   RcU <- RcSmall
   RlU <- RlSmall
